@@ -316,6 +316,8 @@ def plan_faults(doc, counts, rng):
         b = _budget_of(op)
         kind = rng.choice(kinds)
         options = sorted(sites[o], key=lambda x: (str(x[0]), x[1]))
+        if plan.get("sites"):
+            options = [x for x in options if x[1] in plan["sites"]] or options
         if kind == "jump":
             options = [x for x in options if x[1] == "clock"] or options
         elif kind == "unknown":
@@ -602,7 +604,7 @@ def _pick_cfg(g, force_z3=False, weakly_only=False, systems=None):
     return {"op": "new_manager", "system": system, "pmaxsat": pm, "weakly": weakly}
 
 
-def generate(prop, verif_seed, idx, tier="quick", cls=None):
+def generate(prop, verif_seed, idx, tier="quick", cls=None, recover=False):
     from sim.gen import workload as W
 
     sseed = derive(verif_seed, prop, idx)
@@ -611,7 +613,9 @@ def generate(prop, verif_seed, idx, tier="quick", cls=None):
         if prop == "C13":
             cls = g.choices(["seq", "dup", "par", "stall", "budget"], weights=[34, 12, 29, 13, 12])[0]
         else:
-            cls = g.choices(["nofault", "seq", "par", "z3", "natural"], weights=[10, 35, 20, 25, 10])[0]
+            cls = g.choices(["nofault", "seq", "par", "z3", "natural", "poison"], weights=[9, 30, 18, 22, 9, 12])[0]
+    if cls == "poison":
+        return _generate_poison(prop, sseed, idx, g)
     # ---- base -------------------------------------------------------------------------
     weakly_base = g.random() < 0.15
     if g.random() < 0.3 and not weakly_base and W.shipped_bases():
@@ -679,6 +683,16 @@ def generate(prop, verif_seed, idx, tier="quick", cls=None):
                 if mode in ("pre", "all"):
                     op["pre"] = g.choice(budgets[1:])
         calls.append(op)
+    if prop == "C14":
+        # recovery phase: once the budgets (faults) are over, re-ask on the same manager what a
+        # budgeted call was asked ("... or in later calls"); state poisoned by an expiry shows up here
+        budgeted = [c for c in calls if _budget_of(c) > 0]
+        if budgeted and (recover or g.random() < 0.6):
+            src = budgeted[0] if recover else g.choice(budgeted)
+            texts = [t for _, t in src["batch"]]
+            if g.random() < 0.5:
+                g.shuffle(texts)
+            calls.append({"op": "inference", "mgr": src["mgr"], "batch": [[k, t] for k, t in zip(_pick_keys(g, len(texts)), texts)], "multi": False})
     ops.extend(calls)
     knobs = {"svc_scale": g.choice([0.1, 1.0, 1.0, 10.0])}
     doc = {"property": prop, "seed": sseed, "idx": idx, "class": cls, "knobs": knobs, "base": {"text": text, "src": src}, "ops": ops}
@@ -705,6 +719,49 @@ def generate(prop, verif_seed, idx, tier="quick", cls=None):
             doc["fault_plan"] = {"n": g.choice([1, 2, 3]), "kinds": ["unknown", "unknown", "slow", "jump"]}
         else:
             doc["fault_plan"] = {"n": g.choice([1, 2, 3]), "kinds": ["slow", "slow", "jump"]}
+    return doc
+
+
+def _generate_poison(prop, sseed, idx, g):
+    """C14 class 'poison': an RC2-backed manager, literal queries that conflict with the base (so
+    that correction-set enumerations have several models), a warm-up call, ONE budgeted call whose
+    budget expires at a seeded solver call, and a recovery call that re-asks the same queries."""
+    from sim.gen import workload as W
+
+    if g.random() < 0.5 and W.shipped_bases():
+        src, sig, text = g.choice(W.shipped_bases())
+        import re
+
+        body = text[text.find("{") + 1 : text.rfind("}")]
+        ctexts = [c.strip().rstrip(",").replace(" ", "") for c in body.split("\n") if "|" in c]
+    else:
+        sig, conds = W.gen_base(g, want="consistent", max_atoms=g.choice([3, 4, 5]), max_conds=g.choice([4, 6]), style="literal")
+        text, src = W.base_text(sig, conds), "gen"
+        ctexts = [W.cond_text(c) for c in conds]
+    pool = []
+    for t in ctexts:
+        b, a = t[1:-1].split("|", 1)
+        pool.append("(%s|%s)" % (b, a))
+        if "," not in b and ";" not in b:
+            nb = b[1:] if b.startswith("!") else "!" + b
+            pool.append("(%s|%s)" % (nb, a))
+    for _ in range(3):
+        pool.append(W.cond_text(W.gen_conditional(g, sig, "literal")))
+    pool = list(dict.fromkeys(pool))
+    system = g.choice(["c-inference", "c-inference", "system-w", "lex_inf"])
+    ops = [{"op": "new_manager", "system": system, "pmaxsat": g.choice(RC2_BACKENDS), "weakly": False}]
+    if g.random() < 0.7:
+        warm = g.sample(pool, min(len(pool), g.randint(1, 2)))
+        ops.append({"op": "inference", "mgr": 0, "batch": [[k + 1, t] for k, t in enumerate(warm)], "multi": False})
+    asked = g.sample(pool, min(len(pool), g.randint(1, 3)))
+    b = g.choice([1, 2, 5])
+    ops.append({"op": "inference", "mgr": 0, "batch": [[k + 1, t] for k, t in enumerate(asked)], "multi": False, "inf": b})
+    again = list(asked)
+    if g.random() < 0.4:
+        g.shuffle(again)
+    ops.append({"op": "inference", "mgr": 0, "batch": [[k + 1, t] for k, t in enumerate(again)], "multi": False})
+    doc = {"property": prop, "seed": sseed, "idx": idx, "class": "poison", "knobs": {"svc_scale": 1.0}, "base": {"text": text, "src": src}, "ops": ops}
+    doc["fault_plan"] = {"n": g.choice([1, 1, 2]), "kinds": ["slow"], "ops": [len(ops) - 2], "sites": ["rc2.compute"]}
     return doc
 
 
@@ -786,11 +843,11 @@ SPECS = {
 def jobs(prop, verif_seed, n, tier):
     jid = 0
     if prop == "C14":
-        ns = SPECS["C14"]["sweeps_" + tier]
+        ns = int(os.environ.get("VERIF_SWEEPS") or SPECS["C14"]["sweeps_" + tier])
         made = 0
         idx = 10**6
         while made < ns and idx < 10**6 + 50 * ns + 50:
-            doc = generate("C14", verif_seed, idx, tier, cls="seq" if made % 2 else "z3")
+            doc = generate("C14", verif_seed, idx, tier, cls=("poison", "z3", "seq", "poison")[made % 4], recover=True)
             idx += 1
             cand = [i for i, op in enumerate(doc["ops"]) if op["op"] == "inference" and _budget_of(op) > 0 and not op.get("multi")]
             if not cand:
